@@ -12,7 +12,8 @@ MODEL_FILES = ["Model/RTree.v", "Model/TreeRun.v", "Model/Persist.v", "Model/Per
 RULE = ("(a) histories on stored containers with cache sweeps / single-node deactivations between calls; (b) object-keyed "
         "containers whose key comparison sweeps the cache (and records every node's state) on EVERY comparison inside an "
         "operation, results compared with an un-swept twin; (c) after every call, also failing ones (bad key, missing key, "
-        "unusable bound), no node may remain sticky and every stored unchanged node must be evictable; distinct by "
+        "unusable bound, a comparison raising at any point of a lookup / write / range query on a three-level tree, bool / len / "
+        "indexing / iteration of lazy range sequences), no node may remain sticky and every stored unchanged node must be evictable; distinct by "
         "(history, sweep placement); non-trivial = the tree has >= 2 leaves at some sweep")
 ASSUMPTIONS = ["harness/minijar.py + persistent.PickleCache stand in for the ZODB connection and its cache",
                "a tree in the shape of finding F16 (a non-root node holding one never-stored leaf) is not committed: the history is cut there",
@@ -390,8 +391,117 @@ def part_e(ctx, rng, n):
                                    {"family": fn, "kind": kind, "impl": impl, "sizes": [ml, mi], "keys": present})
 
 
+class _Boom(Exception):
+    pass
+
+
+def part_f(ctx, rng, n):
+    """(1) lazy range sequences of stored C trees: bool / len / indexing / iteration leave nothing pinned;
+    (2) a comparison that RAISES at any point of a lookup, write or range query on a stored tree of three
+    levels leaves nothing pinned"""
+    from BTrees.OOBTree import OOBTree, OOTreeSet
+    nviews = nfail = 0
+    for it in range(n):
+        kind = rng.choice(["BTree", "TreeSet"])
+        fn = rng.choice(ALL_FAMS)
+        env = TreeEnv(fn, kind, "C", "int" if fn[0] == "O" else None)
+        ml, mi = rng.choice([(2, 2), (3, 3), (6, 3), (4, 4), (6, 6)])
+        with env.sized(ml, mi):
+            jar = Jar(Storage())
+            t = env.new()
+            keys = sorted(rng.sample(range(0, 60), rng.randint(4, 40)))
+            for k in keys:
+                env.call(t, ("add", k) if env.setlike else ("set", k, k % 4))
+            if f16_condition(None, t):
+                continue
+            jar.add(t)
+            jar.commit()
+            for _ in range(12):
+                jar.minimize()
+                lo, hi = sorted((rng.randrange(-1, 61), rng.randrange(-1, 61)))
+                meth = rng.choice(["keys"] if env.setlike else ["keys", "values", "items"])
+                args = (env.k(lo) if rng.random() < 0.85 else None, env.k(hi) if rng.random() < 0.85 else None, rng.random() < 0.3, rng.random() < 0.3)
+                v = getattr(t, meth)(*args)
+                for opn, op in (("bool", lambda: bool(v)), ("len", lambda: len(v)), ("first", lambda: v[0]), ("last", lambda: v[-1]),
+                                ("next", lambda: next(iter(v))), ("list", lambda: [x for x in v])):
+                    try:
+                        op()
+                    except (IndexError, StopIteration):
+                        pass
+                    nviews += 1
+                    stk = sticky_nodes(jar)
+                    if stk:
+                        ctx.oracle_failure("C:%s:sticky-after:%s-of-range-sequence" % (kind, opn),
+                                           "%s%s/C sizes=(%d,%d) keys %r stored: %s of %s%r leaves %d node(s) pinned (_p_state == 2)" % (fn, kind, ml, mi, keys, opn, meth, (lo, hi) + args[2:], len(stk)),
+                                           {"family": fn, "kind": kind, "sizes": [ml, mi], "keys": keys, "method": meth, "range": [lo, hi, args[2], args[3]], "op": opn})
+                        for o in stk:
+                            o._p_deactivate()
+                        break
+                del v
+            ctx.count(("f-views", fn, kind, ml, mi, tuple(keys)))
+    # (2) raising comparisons
+    for it in range(max(3, n // 6)):
+        cls = rng.choice([OOBTree, OOTreeSet])
+        setlike = cls is OOTreeSet
+        old = (cls.max_leaf_size, cls.max_internal_size)
+        cls.max_leaf_size, cls.max_internal_size = 2, 2
+        try:
+            jar = Jar(Storage())
+            t = cls()
+            ks = sorted(rng.sample(range(0, 80, 2), rng.randint(9, 16)))      # three levels and more
+            for k in ks:
+                if setlike:
+                    t.add(SweepKey(k))
+                else:
+                    t[SweepKey(k)] = k
+            jar.add(t)
+            jar.commit()
+            probe = rng.choice(ks) + rng.choice([0, 1])
+            queries = [("get", lambda: SweepKey(probe) in t), ("minKey", lambda: t.minKey(SweepKey(probe))), ("maxKey", lambda: t.maxKey(SweepKey(probe))),
+                       ("keys", lambda: [x for x in t.keys(SweepKey(probe), SweepKey(probe + 9))]), ("keys-max", lambda: [x for x in t.keys(None, SweepKey(probe))]),
+                       ("len-keys", lambda: len(t.keys(SweepKey(probe), SweepKey(probe + 9)))),
+                       ("set-existing", lambda: (t.add(SweepKey(ks[0])) if setlike else t.__setitem__(SweepKey(ks[0]), 1)))]
+            for qn, q in queries:
+                for failing in range(1, 40):
+                    jar.abort()
+                    jar.minimize()
+                    cnt = [0]
+
+                    def hook():
+                        cnt[0] += 1
+                        if cnt[0] == failing:
+                            raise _Boom()
+                    SweepKey.hook = hook
+                    try:
+                        q()
+                        raised = False
+                    except _Boom:
+                        raised = True
+                    except (ValueError, KeyError):
+                        raised = False
+                    finally:
+                        SweepKey.hook = None
+                    nfail += 1
+                    stk = sticky_nodes(jar)
+                    if stk:
+                        ctx.oracle_failure("C:%s:sticky-after-raising-comparison:%s" % ("TreeSet" if setlike else "BTree", qn),
+                                           "OO%s/C sizes=(2,2) keys %r stored: %s(%d) with comparison #%d raising leaves %d node(s) pinned (_p_state == 2)" % ("TreeSet" if setlike else "BTree", ks, qn, probe, failing, len(stk)),
+                                           {"kind": "TreeSet" if setlike else "BTree", "keys": ks, "query": qn, "probe": probe, "failing": failing})
+                        for o in stk:
+                            o._p_deactivate()
+                        break
+                    if not raised:
+                        break
+            ctx.count(("f-raise", setlike, tuple(ks), probe))
+        finally:
+            cls.max_leaf_size, cls.max_internal_size = old
+    ctx.cov["range_sequence_ops_checked_for_pins"] = nviews
+    ctx.cov["raising_comparisons_checked_for_pins"] = nfail
+
+
 def run(ctx):
     rng = ctx.rng
+    part_f(ctx, rng, ctx.n(40, 1500))
     part_e(ctx, rng, ctx.n(60, 3000))
     part_a(ctx, rng, ctx.n(600, 40000))
     part_b(ctx, rng, ctx.n(300, 25000))
